@@ -75,13 +75,14 @@ func (t *TSO) Snapshot() []TSRecord {
 // crosses the simulator.
 type PD struct {
 	pd.Client
-	Sim *Sim
-	Net *Net
-	ID  int
-	TSO *TSO
-	lat *Hasher
-	n   int
-	mu  sync.Mutex
+	Sim  *Sim
+	Net  *Net
+	ID   int
+	TSO  *TSO
+	lat  *Hasher
+	n    int
+	cutN int
+	mu   sync.Mutex
 	// ParkQueries makes region/store queries cross the simulator as events
 	// (otherwise they are answered in place).
 	ParkQueries bool
@@ -115,12 +116,16 @@ func (f *tsFuture) Wait() (int64, int64, error) {
 	select {
 	case r := <-f.ch:
 		if r.err != nil {
+			if r.err == ErrSimCut {
+				f.p.cutStagger()
+			}
 			return 0, 0, r.err
 		}
 		return int64(r.ts >> tsoLogicalBits), int64(r.ts & (1<<tsoLogicalBits - 1)), nil
 	case <-f.ctx.Done():
 		return 0, 0, f.ctx.Err()
 	case <-f.p.Net.CutCh(f.p.ID):
+		f.p.cutStagger()
 		return 0, 0, ErrSimCut
 	case <-f.p.Net.Down():
 		return 0, 0, ErrSimCut
@@ -185,6 +190,7 @@ func (p *PD) GetMinTS(ctx context.Context) (int64, int64, error) { return p.GetT
 func pdCall[T any](p *PD, ctx context.Context, kind string, fn func() (T, error)) (T, error) {
 	var zero T
 	if p.Net.IsCut(p.ID) {
+		p.cutStagger()
 		return zero, ErrSimCut
 	}
 	if !p.ParkQueries {
@@ -208,10 +214,23 @@ func pdCall[T any](p *PD, ctx context.Context, kind string, fn func() (T, error)
 	case <-ctx.Done():
 		return zero, ctx.Err()
 	case <-p.Net.CutCh(p.ID):
+		p.cutStagger()
 		return zero, ErrSimCut
 	case <-p.Net.Down():
 		return zero, ErrSimCut
 	}
+}
+
+// cutStagger: a call of a dead client fails after a few nanoseconds of simulated time, a different number each time.
+// If it failed in no time at all, the retry loops of the dead client's goroutines (whole-millisecond back-off sleeps
+// from one common instant) would keep waking at identical instants, and the order in which the runtime serves two
+// timers of one instant is not decided by the simulator.
+func (p *PD) cutStagger() {
+	p.mu.Lock()
+	p.cutN++
+	n := p.cutN
+	p.mu.Unlock()
+	time.Sleep(time.Duration(1+(n*7919)%99991) * time.Nanosecond)
 }
 
 // GetRegion implements pd.Client.
